@@ -89,6 +89,32 @@ def check_thunk(th, want_conc, label):
 
 def handle(cmd, args):
     t = taut()
+    if cmd == 'taut-util':
+        # the integer-indexed clause utilities on the REAL code: the conclusion must be the documented schema, instantiated by the
+        # caller (args[-1], in the formula language), and the proof must replay to it
+        name = args[0]
+        want = form(args[-1])
+        replay = args[-2] == 'replay'     # replaying the proof object is exponential in the operand sizes: small requests only
+        if name == 'conj-nth':
+            ps = [form(a) for a in args[1]]
+            th = t.conjunction_implies_nth(T.foldr_op(P._and, ps), int(args[2]), len(ps))
+        elif name in ('or-front', 'and-front'):
+            ps = [form(a) for a in args[1]]
+            pos = [int(a) for a in args[2]]
+            th = (t.or_move_to_front if name == 'or-front' else t.and_move_to_front)(pos, ps)
+        elif name == 'reduce-n':
+            ps = [form(a) for a in args[1]]
+            th = t.reduce_n_or_duplicates_at_front(int(args[2]), ps)
+        elif name == 'merge':
+            ls = [form(a) for a in args[1]]
+            th = t.merge_clauses(T.foldr_op(P._or, ls), len(ls), form(args[2]))
+        else:
+            raise ValueError(name)
+        if replay:
+            bad = check_thunk(th, want, name)
+        else:
+            bad = None if exp(th.conc) == exp(want) else f'{name}-conc-differs'
+        return 'true' if bad is None else f'(bad {bad} {sx.pat_to_s(exp(th.conc))})'
     if cmd == 'taut-cf':
         c, pf1, pf2 = t.to_conj_form(form(args[0]))
         return cf_s(c)
